@@ -15,4 +15,28 @@ package rueidis
 //@   loop 0: invariant startIdx <= i && (i <= limit || i == startIdx) && 0 <= count && count < 8 && limit <= 255 && limit <= len(nodes)
 //@   loop 0: invariant forall j int :: 0 <= j && j < count ==> startIdx <= matches[j] && matches[j] < i && nodes[matches[j]].AZ == clientAZ
 //@   loop 0: invariant count == 0 ==> (forall k int :: startIdx <= k && k < i ==> nodes[k].AZ != clientAZ)
-//@   modifies *counter
+
+//@ func PreferReplicaNodeSelector$1
+//@   requires len(nodes) < 2147483648
+//@   safety C22
+//@   ensures [C22 in-range] result == -1 || (1 <= result && result < len(nodes))
+//@   ensures [C22 replica-if-any] len(nodes) > 1 ==> result != -1
+//@   ensures [C22 none] len(nodes) <= 1 ==> result == -1
+
+//@ func AZAffinityReplicasAndPrimaryNodeSelector$1
+//@   requires len(nodes) < 2147483648
+//@   safety C22
+//@   ensures [C22 in-range] result == -1 || (0 <= result && result < len(nodes))
+//@   ensures [C22 same-az-replica-first] (exists k int :: 1 <= k && k < len(nodes) && k < 255 && nodes[k].AZ == clientAZ) ==> (1 <= result && nodes[result].AZ == clientAZ)
+//@   ensures [C22 same-az-primary-second] (!(exists k int :: 1 <= k && k < len(nodes) && k < 255 && nodes[k].AZ == clientAZ) && len(nodes) > 0 && nodes[0].AZ == clientAZ) ==> result == 0
+//@   ensures [C22 any-replica-third] (!(exists k int :: 1 <= k && k < len(nodes) && k < 255 && nodes[k].AZ == clientAZ) && len(nodes) > 1 && nodes[0].AZ != clientAZ) ==> (1 <= result && result < len(nodes))
+//@   ensures [C22 none] (len(nodes) == 0 || (len(nodes) == 1 && nodes[0].AZ != clientAZ)) ==> result == -1
+
+//@ func newAZSelector$1
+//@   requires startIdx >= 0 && startIdx <= 1
+//@   requires len(nodes) < 2147483648
+//@   safety C22
+//@   ensures [C22 in-range] result == -1 || (startIdx <= result && result < len(nodes))
+//@   ensures [C22 same-az-first] (exists k int :: startIdx <= k && k < len(nodes) && k < 255 && nodes[k].AZ == clientAZ) ==> (result != -1 && nodes[result].AZ == clientAZ)
+//@   ensures [C22 any-node-fallback] len(nodes) > startIdx ==> result != -1
+//@   ensures [C22 none] len(nodes) <= startIdx ==> result == -1
